@@ -216,6 +216,22 @@ class EstLog:
         self.calls = []       # per run: list of recorded argument summaries
 
 
+def sym_floor_int(x=0, *a):
+    """int() of a symbolic non-negative quantity (e.g. a havoc'd model total): a variable i with i <= x < i + 1, named after the argument term so
+    that both lock-step runs get the same variable for the same term; comparisons on it fork the path as usual"""
+    import builtins
+    import hashlib
+    import z3
+    from symx import core
+    if isinstance(x, core.Sym):
+        t = z3.simplify(x.term())
+        i = core.SR.var("int!" + hashlib.sha1(t.sexpr().encode()).hexdigest()[:10])
+        core.ST.assume(i.term() <= t)
+        core.ST.assume(t < i.term() + 1)
+        return i
+    return builtins.int(x, *a)
+
+
 class HavocModel:
     def __init__(self, V, domain, idx, total, cliques, run):
         self.V = V
@@ -259,6 +275,7 @@ class HavocModel:
         from mbi import Dataset
         df = pd.DataFrame(np.zeros((2, len(self.domain.attrs)), dtype=int), columns=list(self.domain.attrs))
         self.run["synth_calls"] = self.run.get("synth_calls", 0) + 1
+        self.run.setdefault("synth_args", []).append({"rows": rows, "method": method})       # compared between the two runs (C06)
         return Dataset(df, self.domain)
 
 
@@ -287,7 +304,7 @@ def make_havoc_fi(V, run):
             run["est_calls"].append({"measurements": rec, "total": total, "engine": engine, "domain": (tuple(self.domain.attrs), tuple(self.domain.shape))})
             cliques = [tuple(m[3]) if not isinstance(m[3], str) else (m[3],) for m in measurements]
             if total is None:
-                tot = SR.var("T!%d" % idx, "p") if V.symbolic else 10.0
+                tot = SR.var("T!%d" % idx, "p") if V.symbolic else V.real("T!%d" % idx, "p")      # float runs: the model point's value, else a random positive total (also <= 1)
             else:
                 tot = total
             self.model = HavocModel(V, self.domain, idx, tot, cliques, run)
@@ -325,7 +342,7 @@ def prepare(V, name):
             shims.shadow(mod, _persist=True, sparse=SparseProxy("sparse_proxy"))
         _PREPARED[name] = True
     if V.symbolic and key not in _PREPARED:
-        kw = {"np": shims.NPM}
+        kw = {"np": shims.NPM, "int": sym_floor_int}
         if "softmax" in mod.__dict__:
             kw["softmax"] = shims.sym_softmax
         if "logsumexp" in mod.__dict__:
